@@ -393,19 +393,161 @@ def body_if_block(h, n_elseif, has_else, body_len):
         return (i.op.name,) + tuple(i.args)
     off = [key(i) for i in res[False][0]]
     on_all = res[True][0]
-    on = [key(i) for i in on_all if isinstance(i, ChildInstr) or not i.op.name.startswith('_DBG')]
+    on = [key(i) for i in on_all if isinstance(i, ChildInstr) or not (i.op.name.startswith('_') and i.op.name != '_LABEL')]
     h.prove('debug_off_has_no_markers', all(not k[0].startswith('_DBG') for k in off))
     h.prove('same_code_and_labels_modulo_markers', on == off, detail=f'{on} vs {off}')
     marks = [(i.op.name, i.args[0]) for i in on_all if not isinstance(i, ChildInstr) and i.op.name.startswith('_DBG')]
     node = res[True][1]
-    want = []
-    for s in node.elseif_stmts + ([node.else_stmt] if node.else_stmt else []):
-        want += [('_DBG_INFO_START', s), ('_DBG_INFO_END', s)]
-    h.prove('one_balanced_marker_pair_per_elseif_and_else', len(marks) == len(want) and
-            all(a[0] == b[0] and a[1] is b[1] for a, b in zip(marks, want)), detail=str([(m[0], m[1].tag) for m in marks]))
+    stmts_ = node.elseif_stmts + ([node.else_stmt] if node.else_stmt else [])
+    # balanced pairs (START s immediately matched by END s), statements in source order, every ELSEIF / ELSE covered
+    ok = len(marks) % 2 == 0
+    order = []
+    for a, b in zip(marks[0::2], marks[1::2]):
+        ok = ok and a[0] == '_DBG_INFO_START' and b[0] == '_DBG_INFO_END' and a[1] is b[1] and any(a[1] is x for x in stmts_)
+        if ok:
+            order.append([i for i, x in enumerate(stmts_) if x is a[1]][0])
+    ok = ok and order == sorted(order) and set(order) == set(range(len(stmts_)))
+    h.prove('balanced_marker_pairs_for_every_elseif_and_else_in_order', ok, detail=str([(m[0], m[1].tag) for m in marks]))
 
 
 CONTRACTS += [
     Contract('codegen.if_block_markers', ['C08', 'C11'], ['qbee.qvm_codegen:gen_if_block'], body_if_block,
              cases=[(n, e, b) for n in (0, 1, 2) for e in (False, True) for b in (0, 1)]),
+]
+
+
+# ------------------------------------------------------------------ C08 frame conditions (syntactic, over the AST of the real functions)
+
+import ast
+import inspect
+import textwrap
+
+
+def self_attrs_read(stmts):
+    out = set()
+    for st in stmts:
+        for n in ast.walk(st):
+            if isinstance(n, ast.Attribute) and isinstance(n.value, ast.Name) and n.value.id == 'self':
+                out.add(n.attr)
+    return out
+
+
+def body_frames(h):
+    """(1) the literal, data and global sections are computed from _string_literals, _data, _globals and the compilation
+    only — not from the instruction list or the debug flag; (2) no semantic pass reads the debug setting; (3) the only
+    reader of the debug flag in the compile path hands it to the code generator / sets the source text"""
+    fn = ast.parse(textwrap.dedent(inspect.getsource(QvmCode.__bytes__))).body[0]
+    cut = None
+    for i, st in enumerate(fn.body):
+        if any(isinstance(n, ast.Attribute) and n.attr == 'assembled' for n in ast.walk(st)):
+            cut = i
+            break
+    h.prove('bytes.structure_recognised', cut is not None and cut >= 6)
+    if cut is None:
+        return
+    reads = self_attrs_read(fn.body[:cut])
+    h.prove('sections_1_to_3_frame', reads <= {'_string_literals', '_data', '_globals', 'compilation'}, detail=str(sorted(reads)))
+    import qbee.compiler as C
+    src = inspect.getsource(C)
+    tree = ast.parse(src)
+    offenders = []
+    for cls in [n for n in tree.body if isinstance(n, ast.ClassDef) and n.name in ('CompilePass', 'Pass1', 'Pass2', 'Pass3', 'CompilationUnit')]:
+        for n in ast.walk(cls):
+            name = n.attr if isinstance(n, ast.Attribute) else (n.id if isinstance(n, ast.Name) else None)
+            if name and 'debug' in name.lower() or name and 'dbg' in name.lower():
+                offenders.append((cls.name, name, n.lineno))
+    h.prove('passes_do_not_read_the_debug_setting', not offenders, detail=str(offenders))
+    comp = [n for n in tree.body if isinstance(n, ast.ClassDef) and n.name == 'Compiler'][0]
+    uses = []
+    for f in [n for n in comp.body if isinstance(n, ast.FunctionDef)]:
+        for n in ast.walk(f):
+            if isinstance(n, ast.Attribute) and 'debug' in n.attr.lower():
+                uses.append((f.name, n.attr))
+    ok = all(u in (('__init__', '_debug_info_enabled'), ('compile', '_debug_info_enabled')) for u in uses)
+    h.prove('compiler_uses_the_flag_only_to_configure_the_code_generator', ok and len(uses) >= 2, detail=str(uses))
+    # in compile(), the flag guards only set_source_code
+    cfn = [f for f in comp.body if isinstance(f, ast.FunctionDef) and f.name == 'compile'][0]
+    guarded = []
+    for n in ast.walk(cfn):
+        if isinstance(n, ast.If) and any(isinstance(m, ast.Attribute) and m.attr == '_debug_info_enabled' for m in ast.walk(n.test)):
+            for st in n.body:
+                guarded.append(ast.unparse(st))
+    h.prove('compile_guards_only_set_source_code', guarded == ['self._codegen.set_source_code(input_string)'], detail=str(guarded))
+
+
+CONTRACTS += [
+    Contract('c08.frames', ['C08'], ['qbee.qvm_codegen:QvmCode.__bytes__', 'qbee.compiler:Compiler.compile'], body_frames,
+             trusted=['syntactic reads/assigns analysis over the AST (no solver)']),
+]
+
+
+# ------------------------------------------------------------------ SELECT CASE block markers + who reads the debug flag
+
+class _Rt:
+    def __init__(self):
+        self.local_vars = {}
+
+
+def body_select_block(h, ncases, body_len):
+    res = {}
+    for dbg in (False, True):
+        node = object.__new__(stmt.SelectBlock)
+        node.value = _Cond(500)
+        node._parent_routine = _Rt()
+        node.parent = None
+        cases = [_Node(f'case{i}') for i in range(ncases)]
+        for i, c in enumerate(cases):
+            c.k = 600 + i
+        node.case_blocks = [(c, [_Cond(700 + 10 * i + j) for j in range(body_len)]) for i, c in enumerate(cases)]
+        g = _IfGen(dbg)
+        g.cur_blocks = []
+        code = QvmCode()
+        out = h.call(qvm_codegen.gen_select_block, node, code, g)
+        if not out.returned:
+            h.prove('no_exception', False, detail=repr(out))
+            return
+        res[dbg] = (code._instrs, cases, node, g)
+
+    def key(i):
+        if isinstance(i, ChildInstr):
+            return ('child', i.k)
+        return (i.op.name,) + tuple(i.args)
+    strip = lambda l: [key(i) for i in l if isinstance(i, ChildInstr) or not (i.op.name.startswith('_') and i.op.name != '_LABEL')]
+    h.prove('debug_off_has_no_markers', strip(res[False][0]) == [key(i) for i in res[False][0]])
+    h.prove('same_code_and_labels_modulo_markers', strip(res[True][0]) == strip(res[False][0]))
+    on_all, cases = res[True][0], res[True][1]
+    marks = [(i.op.name, i.args[0]) for i in on_all if not isinstance(i, ChildInstr) and i.op.name.startswith('_DBG')]
+    want = []
+    for c in cases:
+        want += [('_DBG_INFO_START', c), ('_DBG_INFO_END', c)]
+    h.prove('one_marker_pair_per_case_in_order', len(marks) == len(want) and all(a[0] == b[0] and a[1] is b[1] for a, b in zip(marks, want)))
+    h.prove('temporary_registered_in_the_routine', len(res[True][2]._parent_routine.local_vars) == 1 and
+            list(res[True][2]._parent_routine.local_vars) == list(res[False][2]._parent_routine.local_vars))
+    h.prove('block_context_popped', res[True][3].cur_blocks == [])
+
+
+def body_flag_readers(h):
+    """the generator functions that consult debug_info_enabled are exactly the ones under a marker lemma"""
+    import qbee.qvm_codegen as Q
+    tree = ast.parse(inspect.getsource(Q))
+    readers = set()
+    for f in [n for n in ast.walk(tree) if isinstance(n, ast.FunctionDef)]:
+        for n in ast.walk(f):
+            if isinstance(n, ast.Attribute) and n.attr in ('debug_info_enabled', '_debug_info_enabled'):
+                readers.add(f.name)
+    covered = {'gen_code_for_block', 'gen_if_block', 'gen_select_block', 'init_code', 'assembled', '__bytes__', '__init__',
+               'enable_debug_info', 'bconv', 'get_string_literal_idx'}
+    h.prove('readers_of_the_debug_flag_are_covered', readers <= covered, detail=str(sorted(readers - covered)))
+    import qbee.codegen as CG
+    tree2 = ast.parse(inspect.getsource(CG))
+    readers2 = {f.name for f in ast.walk(tree2) if isinstance(f, ast.FunctionDef)
+                for n in ast.walk(f) if isinstance(n, ast.Attribute) and n.attr == 'debug_info_enabled'}
+    h.prove('base_codegen_readers', readers2 <= {'__init__', 'start_dbg_info', 'end_dbg_info'}, detail=str(sorted(readers2)))
+
+
+CONTRACTS += [
+    Contract('codegen.select_block_markers', ['C08', 'C11'], ['qbee.qvm_codegen:gen_select_block'], body_select_block,
+             cases=[(n, b) for n in (0, 1, 2, 3) for b in (0, 1)]),
+    Contract('c08.flag_readers', ['C08'], ['qbee.qvm_codegen:gen_code_for_block'], body_flag_readers,
+             trusted=['syntactic scan for readers of debug_info_enabled (no solver)']),
 ]
